@@ -287,6 +287,13 @@ def check_C02(ck):
                 cases.append(("mul/%s/%s" % (cp, cs), "%s mul %s %x" % (tag, g.J(P, g.lam(rng)), k))); exp.append(want)
                 cases.append(("affmul/%s/%s" % (cp, cs), "%s affmul %s %x" % (tag, g.A(P), k))); exp.append(want)
         base_pts = [p for p in pts if p[0] in ("generator", "subgroup", "identity")]
+        # table multiplications on points of small order (outside the subgroup): [2^32]T = +-T etc. make table entries coincide
+        for l_ in g.small[:2]:
+            Pl = g.low(l_, rng)
+            for k in (1 + (1 << 32), (1 << 64) + 1, (1 << 64) + (1 << 32) + 1, l_, l_ + 1, R, R + 1, (1 << 255) | 5, rng.randrange(1 << 256)):
+                cases.append(("mulpre256/order-%d" % l_, "%s mulpre256 %s %x" % (tag, g.A(Pl), k))); exp.append(g.A(C.mul(Pl, k)))
+                cases.append(("mulpre3/order-%d" % l_, "%s mulpre3 %s %x" % (tag, g.A(Pl), k))); exp.append(g.A(C.mul(Pl, k)))
+                cases.append(("mul/order-%d" % l_, "%s mul %s %x" % (tag, g.J(Pl, g.lam(rng)), k))); exp.append(g.A(C.mul(Pl, k)))
         for (cp, P) in base_pts[:3]:
             for (cs, k) in scal:
                 want = g.A(C.mul(P, k))
@@ -451,6 +458,19 @@ def check_C03(ck):
             pe.append(O.show_f12(O.f12_pow(e0, (a * b) % R)))
         for c, (impl, _), want in zip(pc, ck.run(pc), pe):
             ck.expect(impl == want, "bilinear", c[1], impl, want, "e([a]P,[b]Q) = e(P,Q)^(ab) with [a]P from mul_assign, a up to 2^256-1")
+    # [a]P obtained through batch_normalization of a batch that mixes normalised and non-normalised representatives
+    Pg, Qg = g1.gen, g2.gen
+    eg = evals[len(base) - 1] if len(evals) >= len(base) else None
+    if eg is not None:
+        for order in ((5, 1, 11), (1, 5, 11), (5, 11, 1), (5, 0, 1, 11)):
+            reps1 = [g1.J(g1.C.mul(Pg, a_)) if a_ in (0, 1) else g1.J(g1.C.mul(Pg, a_), g1.lam(rng)) for a_ in order]
+            reps2 = [g2.J(g2.C.mul(Qg, a_)) if a_ in (0, 1) else g2.J(g2.C.mul(Qg, a_), g2.lam(rng)) for a_ in order]
+            (b1, _), (b2, _) = ck.run([("batch-normalised-arguments", "g1 batch %s" % ";".join(reps1)), ("batch-normalised-arguments", "g2 batch %s" % ";".join(reps2))])
+            if ";" in b1 and ";" in b2:
+                pj = [("bilinear/batch-normalised", "pairjac %s %s" % (x_, y_)) for x_, y_ in zip(b1.split(";"), b2.split(";"))]
+                for a_, c, (impl, _) in zip(order, pj, ck.run(pj)):
+                    want = O.show_f12(O.f12_pow(eg, (a_ * a_) % R))
+                    ck.expect(impl == want, "bilinear", c[1][:120], impl[:60], want[:60], "e([a]P,[a]Q) = e(P,Q)^(a^2) with both arguments taken from batch_normalization")
     # agreement with the textbook evaluation: an independent affine Miller loop over Fq12 on the untwisted point
     # (oracle.ate_pairing; the theorem PP.Props.C03Lines.pairing_is_reduced_ate states the same for the model).
     # P only needs to be a finite curve point, Q a finite twist point whose small multiples are non-zero.
@@ -994,6 +1014,22 @@ def check_C07(ck):
                     dcases.append(("deser-route-chunked/%s/%s/%s" % (cl, kind, "c" if comp else "u"), "%s deser_%s_ch %s %d %x" % (tag, kind, bs, fl, 7)))
         for c, (impl, _) in zip(dcases, ck.run(dcases)):
             ck.expect(impl.startswith("ERR"), "invariant:decoders-hand-out-members-only", c[1][:120], impl[:80], "ERR:*", "a point outside the subgroup / off the curve is rejected by every decoding route")
+        # precomputed tables (3 and 256 entries) of the identity and of subgroup points consist of members; table multiplication
+        for (cl, Pt) in (("identity", None), ("subgroup", g.sub_pt(rng))):
+            for op in ("pre3", "pre256"):
+                (impl_, _), = ck.run([("table-entries/%s/%s" % (op, cl), "%s %s %s" % (tag, op, g.A(Pt)))])
+                okt = impl_ not in ("PANIC", "BAD-CASE", "-")
+                if okt:
+                    for ent in impl_.split(";"):
+                        try:
+                            Pe = g.pa(ent)
+                            okt = okt and C.on_curve(Pe) and C.mul(Pe, R) is None
+                        except Exception:
+                            okt = False
+                ck.expect(okt, "invariant:table-entries", "%s %s %s" % (tag, op, g.A(Pt)), impl_[:80], "members", "every table entry is a subgroup member (identity entries stay the identity)")
+            for k_ in (1, (1 << 64) | 5, (1 << 200) | (1 << 130) | 3, rng.randrange(1 << 256)):
+                outs.append(("mul_precomp_3/%s" % cl, "%s mulpre3 %s %x" % (tag, g.A(Pt), k_)))
+                outs.append(("mul_precomp_256/%s" % cl, "%s mulpre256 %s %x" % (tag, g.A(Pt), k_)))
         # multi-scalar multiplication with the identity among the inputs (first, last, alone in its bucket), every small window
         Sa, Sb = g.sub_pt(rng), g.sub_pt(rng)
         for ps in ([None, Sa], [Sa, None], [None, Sa, Sb], [None, None, Sa], [None]):
@@ -1565,6 +1601,13 @@ def check_C10(ck):
         for ps in ([None], [nz[0], None, nz[1]], [None, nz[0]], [nz[1], nz[0], None], [None, None]):
             ks = [rng.randrange(1, 2 ** 255) for _ in ps]
             add_case("soppre/with-identity", "soppre", ps, ks, g.A(msm(ps, ks)))
+        # points of small order (on the curve, outside the subgroup: 2^32 T = +-T etc. make table entries coincide) in every variant
+        lows = [g.low(l_, rng) for l_ in g.small[:2]]
+        for Pl in lows:
+            for ks in ([1 + (1 << 32)], [(1 << 64) + (1 << 32) + 1], [rng.randrange(1, 2 ** 255)]):
+                add_case("soppre/low-order-point", "soppre", [Pl], ks, g.A(msm([Pl], ks)))
+                add_case("sop/low-order-point", "sop", [Pl, nz[0]], ks + [5], g.A(msm([Pl, nz[0]], ks + [5])))
+                add_case("pip/w4/low-order-point", "pip 4", [Pl, nz[0]], ks + [7], g.A(msm([Pl, nz[0]], ks + [7])))
         # mismatched lengths in the table-driven variant: a PREFIX of the points with the full scalar list and the full table buffer
         for (n_, tot) in ((0, 3), (1, 3), (2, 4), (3, 4), (4, 4)):
             ps = [rng.choice(nz) for _ in range(tot)]
@@ -2188,6 +2231,7 @@ def check_C20(ck):
                  # depend on what the allocator left there), also through hash_to_field for Fr (48 bytes per element)
                  "expand xmd256 %s 51 11" % bytes(rng.randrange(256) for _ in range(5)).hex(), "expand xmd256 0102 51 30", "expand xmd512 0102 51 21", "expand xmd512 %s 51 61" % bytes(rng.randrange(256) for _ in range(40)).hex(),
                  "expand xof128 0102 51 11", "h2f fr xmd256 0102 51 1", "h2f fr xmd512 0102 51 3", "h2f fr xmd256 %s 51 1" % bytes(rng.randrange(256) for _ in range(7)).hex(),
+                 "okm fq %s" % bytes(rng.randrange(256) for _ in range(64)).hex(), "okm fr %s" % bytes(rng.randrange(256) for _ in range(48)).hex(), "okm fq2 %s" % bytes(rng.randrange(256) for _ in range(128)).hex(),
                  "g1 enc_c %s" % g1.A(P), "fq12 frob %s 7" % O.show_f12(O.f12_unflat([rng.randrange(Q) for _ in range(12)]))]
     base = ck.run([("sequential", w) for w in work])
     ref = [a for (a, _) in base]
